@@ -7,7 +7,10 @@ THEOREMS = (
     ["C17_word_size"]
     + [f"C17_impl_{o}_correct" for o in _OPS]
     + ["C17_word_ops_agree", "C17_spec_ops_in_range", "C17_spec_ops_closed", "C17_impl_ops_closed",
-       "C17_exp_spec_is_math", "C17_impl_exp_is_math"]
+       "C17_exp_spec_is_math", "C17_impl_exp_is_math",
+       # machine level (Model/EvmMachine.v run with impl_ops = run with spec_ops)
+       "C17_machine_refines_generic", "C17_machine_refines_spec", "C17_machine_refines_spec_from_start",
+       "C17_machine_pow_refines_spec", "C17_machine_stack_holds_words", "C17_machine_same_step"]
 )
 MODEL_TARGETS = ["Model/EvmSpec", "Model/EvmWord", "Model/EvmWordCorr"]
 HARNESS = [
@@ -29,11 +32,13 @@ TRUSTED_BASE = TRUSTED_BASE_COMMON + [
     "C17 correspondence encoding coq/Model/EvmWordCorr.v: 256-bit words are written as five 60-bit primitive-integer (Uint63) literals and decoded with Uint63.to_Z inside vm_compute (parsing speed only; no theorem mentions primitive integers); opcode byte -> instruction table `apply_op` restated there and cross-checked against the jump table the harness reads from the compiled crate (fil_actor_evm::interpreter::opcodes)",
 ]
 ASSUMPTIONS = [
-    "WORD LEVEL ONLY in this file's theorem list: each of the 26 arithmetic/comparison/bitwise/shift instructions, as an isolated function of its 1-3 stack operands in [0, 2^256); stack/memory/storage/control-flow instructions and multi-instruction programs are the machine level (Model/EvmMachine.v, added separately)",
+    "WORD LEVEL: each of the 26 arithmetic/comparison/bitwise/shift instructions, as a function of its 1-3 stack operands in [0, 2^256): transcribed algorithm = specification for all operands",
+    "MACHINE LEVEL (C17_machine_*): the interpreter model coq/Model/EvmMachine.v (owned by the EVM-machine work) run with impl_ops equals the same model run with spec_ops, for every environment, fuel and start state whose stack holds words; this transfers the word-level result to whole programs but says nothing by itself about how faithfully EvmMachine.v models the stack/memory/storage/control-flow instructions -- that is the machine's own correspondence check (program-level harness), not part of this file's HARNESS list",
     "operands are in [0, 2^256) (what a U256 can hold); the theorems say nothing outside that range",
     "gas is not modelled (FEVM instructions do not charge EVM gas); EXP cost is irrelevant to its result",
 ]
-LEVEL_TEXT = ("proof (all operands, 26 instructions: transcribed algorithm = specification; closed under the global context) "
+LEVEL_TEXT = ("proof (all operands, 26 instructions: transcribed algorithm = specification; machine with impl_ops = machine with spec_ops "
+              "for all programs/fuel; closed under the global context) "
               "+ correspondence (real EVM actor bytecode execution vs both the specification and the transcribed algorithm, "
               "boundary pairs/triples and random words)")
 TECHNIQUE = "machine-checked proof in Coq about an executable Gallina model + correspondence check against the real Rust code"
